@@ -617,6 +617,10 @@ def r6_membership(P, rep, ctx):
                 return f"'/'.join({SEGS}[1:]) in self.get({SEGS}[0])"
             if d.get(ONE) is False and d.get(NXT) is False:
                 return "False"
+            if d.get(ABS) is False or d.get(ROOT) is True:
+                # a relative name / a name asked of the root is never delegated to the root wrapper (infinite regress for the
+                # root, wrong group for a relative name): one of the segment-wise answers
+                return (f"{SEGS}[0] in self.keys()", f"'/'.join({SEGS}[1:]) in self.get({SEGS}[0])", "False")
         return None
 
     try:
